@@ -3,14 +3,15 @@ import Drv.Common
 /-! Line-protocol driver for the C06 model (`QmiModel.Frame`).  One output line per input line.
 
 ```
-init <ctx> <max>                               -> ok          (new world: own context name, MAX_MESSAGE_SIZE)
+init <ctx> <max> <ver>                         -> ok          (new world: own context name, MAX_MESSAGE_SIZE, own version)
+esz <payloadhex> <ud|rf|nl> <size>             -> ok          (pickled size of the error reply for that request / failure kind)
 hadd <obj> <accept|refuse|crash|crashOnErr|refuseReq> / hdel <obj>   -> ok
 def <payloadhex> hs <name|-> <ver> <0|1> | msg <q|p|e|o> <rid> <sctx> <sobj> <dctx> <dobj> <tag> | notmsg | undec -> ok
 accept <id> <sendOk>                           -> <events> | <state>
 recv <id> <hex|->                              -> <events> | <state>       ("-" = recv returned b"")
 send <q|p|e|o> <rid> <sobj> <dctx> <dobj> <tag> <payloadhex> <sendOk>     -> <events>
 disc <name>                                    -> <events> | exc:QMI_UnknownNameException
-connect <id> <name> <chunkhex>*                -> <events> | ok|exc:<err> | <state>
+connect <id> <name> (<asked>:<chunkhex>)*       -> <events> | ok|exc:<err> | <state> | reqs=ok|<model's request sizes>
 state <id> / peers / frame <hex>
 ```
 -/
@@ -56,6 +57,9 @@ def showBody : Body → String
   | .closedWaiting p => s!"cw{showOName p}"
   | .unknownDest => "ud" | .nonLocal => "nl" | .refused => "rf" | .unknownCtx => "uc" | .sendFailed => "sf"
 
+def parseBody : String → Option Body
+  | "ud" => some .unknownDest | "nl" => some .nonLocal | "rf" => some .refused | _ => none
+
 def showMsg (m : Msg) : String :=
   s!"{showKind m.kind},{m.rid},{showName m.src.ctx},{m.src.obj},{showName m.dst.ctx},{m.dst.obj},{showBody m.body}"
 
@@ -74,6 +78,7 @@ def showEv : Ev → String
   | .sentErr m => s!"E:{showMsg m}"
   | .sent f => s!"S:{Drv.hex f}"
   | .sentHs sv => s!"H:{if sv then 1 else 0}"
+  | .versionWarning => "V"
   | .violation w => s!"X:{showWhy w}"
   | .eof => "Z"
   | .removed a => s!"R:{showName a}"
@@ -99,7 +104,7 @@ def showHsErr : HsErr → String
   | .proc w => showWhy w | .peerNone => "peernone" | .needMore => "needmore"
 
 def showConnectErr : ConnectErr → String
-  | .duplicate => "duplicate" | .hs e => showHsErr e | .wrongName => "wrongname"
+  | .invalidName => "invalidname" | .duplicate => "duplicate" | .hs e => showHsErr e | .wrongName => "wrongname"
 
 def parseDecoded : List String → Option Decoded
   | ["hs", n, v, sv] => do
@@ -120,12 +125,29 @@ def unhexAll : List String → Option (List Bytes)
     let bs ← unhexAll rest
     pure (b :: bs)
 
+def parseReqChunks : List String → Option (List (Nat × Bytes))
+  | [] => some []
+  | s :: rest => do
+    match s.splitOn ":" with
+    | [n, hx] =>
+      let n ← n.toNat?
+      let b ← Drv.unhex hx
+      let bs ← parseReqChunks rest
+      pure ((n, b) :: bs)
+    | _ => none
+
 def stepLine (w : World) (line : String) : World × String :=
   match line.splitOn " " with
-  | ["init", n, mx] =>
-    match parseName1 n, mx.toNat? with
-    | some n, some mx => (World.init n mx, "ok")
-    | _, _ => (w, "bad-op")
+  | ["init", n, mx, ver] =>
+    match parseName1 n, mx.toNat?, ver.toNat? with
+    | some n, some mx, some ver => (World.init n mx ver, "ok")
+    | _, _, _ => (w, "bad-op")
+  | ["esz", hx, b, sz] =>
+    match Drv.unhex hx, parseBody b, sz.toNat? with
+    | some p, some b, some sz =>
+      let old := w.env.errSize
+      ({ w with env := { w.env with errSize := fun q c => if q == p && c == b then sz else old q c } }, "ok")
+    | _, _, _ => (w, "bad-op")
   | ["hadd", obj, hk] =>
     match obj.toNat?, parseHKind hk with
     | some o, some h =>
@@ -168,11 +190,16 @@ def stepLine (w : World) (line : String) : World × String :=
       | none => (w, "exc:QMI_UnknownNameException")
     | none => (w, "bad-op")
   | "connect" :: id :: n :: chunks =>
-    match id.toNat?, parseName1 n, unhexAll chunks with
-    | some id, some n, some chunks =>
+    match id.toNat?, parseName1 n, parseReqChunks chunks with
+    | some id, some n, some rc =>
+      let chunks := rc.map (·.2)
       let r := w.connect id n chunks
       let res := match r.2.2 with | none => "ok" | some e => s!"exc:{showConnectErr e}"
-      (r.1, s!"{showEvs r.2.1} | {res} | {showState r.1 id}")
+      -- the byte counts the real code asked recv for must be the model's
+      let reqs := if r.2.2 == some .invalidName || r.2.2 == some .duplicate then []
+                  else recvHsReqs w.env [] chunks
+      let rq := if reqs == rc.map (·.1) then "reqs=ok" else s!"reqs={reqs}"
+      (r.1, s!"{showEvs r.2.1} | {res} | {showState r.1 id} | {rq}")
     | _, _, _ => (w, "bad-op")
   | ["state", id] =>
     match id.toNat? with
@@ -187,4 +214,4 @@ def stepLine (w : World) (line : String) : World × String :=
 
 end C06
 
-def main : IO Unit := Drv.main' C06.stepLine (World.init (.ctx 0) 0)
+def main : IO Unit := Drv.main' C06.stepLine (World.init (.ctx 0) 0 0)
